@@ -50,7 +50,7 @@ Proof. intros s g. apply stop_conserve. Qed.
 Print Assumptions C20_wills_conserved.
 
 Example C20_nonvacuous :
-  concat (snd (run (init true) [EConnect 1%N 7%N false false None None; ESubscribe 7%N 3%N;
+  concat (snd (run (init true) [EConnect 1%N 7%N false false None None; ESubscribe 7%N 6%N;
                                 EConnect 2%N 8%N false true None (Some (mkWill 9%N 5%N 0)); EStop;
                                 EConnect 3%N 9%N false true None None])) =
     [OConnack 1%N false 0%N; OConnack 2%N false 0%N; OClosed 1%N RShutdown; OClosed 2%N RShutdown; OWill 8%N 9%N; OStopReturned].
